@@ -109,6 +109,11 @@ def suite_call(ctx):
                 how, verdict, flags, payload, nsend = results[sw]
                 s.evaluations += 1
                 key = '%s|%s|%s' % (c.desc(), kn, sw)
+                # the response that is raised / returned is the frame that was received (the last one: earlier ones were 0x78)
+                if frames and verdict.split(':')[0] in ('negative', 'invalid', 'unexpected') and payload != frames[-1]:
+                    s.fail(dict(rec, switches=sw, observed='%s carrying payload %s' % (verdict, payload.hex() if payload is not None else None),
+                                required='carrying the response received: %s' % frames[-1].hex()))
+                    continue
                 if base[1] != 'ok':
                     s.distinct.add(key)
                 # ---- P_spec on the implementation (metamorphic over switch settings)
